@@ -193,6 +193,10 @@ def chk_derivation(rng):
         [C.SingleValueConstraint(1, 2, 3), C.ValueRangeConstraint(2, 9)],
         [C.ConstraintsUnion(C.ValueRangeConstraint(0, 3), C.SingleValueConstraint(7))],
         [C.ValueRangeConstraint(0, 7), C.SingleValueConstraint(0, 7)],
+        # derivation that starts from a union / an exclusion: the next constraint is intersected with it, not added to it
+        [C.ConstraintsUnion(C.ValueRangeConstraint(0, 5), C.ValueRangeConstraint(10, 12)), C.ValueRangeConstraint(3, 11)],
+        [C.ConstraintsIntersection(C.ValueRangeConstraint(0, 9)), C.ConstraintsUnion(C.SingleValueConstraint(2), C.SingleValueConstraint(30))],
+        [C.ConstraintsExclusion(C.SingleValueConstraint(4)), C.ValueRangeConstraint(2, 6)],
         [C.SingleValueConstraint(2, 9), C.ValueRangeConstraint(2, 9)],
     ]
     for chain in chains:
